@@ -105,7 +105,9 @@ func VerifParse(symbolTypes SymbolTypes, query string) (Query, error) {
 	if !verifrt.IsConcrete(query) {
 		// a query assembled from data: match it against the registered
 		// templates (the text around the literal is concrete)
-		for _, t := range VerifTemplates {
+		// longest literal context first: a shorter template's context may be a
+		// prefix of a longer one's
+		for _, t := range verifTemplatesByContext() {
 			pre, suf := verifSplitTemplate(t)
 			if len(query) >= len(pre)+len(suf) && query[:len(pre)] == pre && query[len(query)-len(suf):] == suf {
 				body := query[len(pre) : len(query)-len(suf)]
@@ -148,6 +150,20 @@ func VerifParseTemplate(symbolTypes SymbolTypes, template string, body string) (
 // VerifTemplates: queries with one placeholder literal, e.g.
 // `boss = "__VERIF_LIT__"`, for query strings the code assembles from data.
 var VerifTemplates []string
+
+func verifTemplatesByContext() []string {
+	ts := append([]string{}, VerifTemplates...)
+	for i := 1; i < len(ts); i++ {
+		for j := i; j > 0; j-- {
+			pa, sa := verifSplitTemplate(ts[j-1])
+			pb, sb := verifSplitTemplate(ts[j])
+			if len(pb)+len(sb) > len(pa)+len(sa) {
+				ts[j-1], ts[j] = ts[j], ts[j-1]
+			}
+		}
+	}
+	return ts
+}
 
 func verifSplitTemplate(t string) (string, string) {
 	ph := verifLiteralPlaceholder
